@@ -5,6 +5,6 @@ import "verif/mc/checks/gen"
 
 func main() {
 	gen.Main("C05", "exploration",
-		"same corpus x runtime x value-tree enumeration as C04; per case the bytes of the generated Marshal are parsed by the reference runtime from the descriptor alone (dynamicpb, never consults generated methods) and the resulting tree must equal the source tree bit-exactly (floats by bits, -0.0, NaN), with identical presence for every field, and no unknown fields. Two further populations of originals: (a) the same trees carrying unknown fields at EVERY level (root, singular children, list elements, map values): first Marshal, second Marshal of the same message, Marshal after Size, csproto.Marshal - each must read back as the tree, unknown fields at the level they belong to; (b) messages that came out of the generated Unmarshal of every legal encoding variant of the case: what the reference reads from Marshal must equal what reflection reads from the message itself. distinct_nontrivial = cases with non-empty output that reached the tree comparison.",
+		"same corpus x runtime x value-tree enumeration as C04; per case the bytes of the generated Marshal are parsed by the reference runtime from the descriptor alone (dynamicpb, never consults generated methods) and the resulting tree must equal the source tree bit-exactly (floats by bits, -0.0, NaN), with identical presence for every field, and no unknown fields. Two further populations of originals: (a) the same trees carrying unknown fields at EVERY level (root, singular children, list elements, map values): first Marshal, second Marshal of the same message, Marshal after Size, csproto.Marshal - each must read back as the tree, unknown fields at the level they belong to; (b) messages that came out of the generated Unmarshal of every legal encoding variant of the case: what the reference reads from Marshal must equal what reflection reads from the message itself. distinct_nontrivial = cases with non-empty output that reached the tree comparison. ROUND 7 ADDITION: hand-built struct shapes compared with the reference runtime's own reading of the struct (nil map values excepted).",
 		"the harness is guarded per case: the reference's own marshal of the tree must parse back to the tree and a struct built from the tree must read back as the tree (else internal error, not a violation)")
 }
